@@ -27,6 +27,11 @@ def sig():
     return s
 
 
+# values that travel on one wire (tuples excluded: the library's convention cannot tell a tuple
+# value from several wires)
+PAYLOADS = [[1, 2], [], {"k": 1}, 0, "", [None], "ab"]
+
+
 def sym_apply(name, n_out, args):
     return tuple("%s%d(%s)" % (name, k, ",".join(map(str, args))) for k in range(n_out))
 
@@ -73,6 +78,9 @@ def check_diagram(params):
     if params.get("none_input") is not None and n_in:
         k0 = params["none_input"] % n_in
         inputs = inputs[:k0] + (None,) + inputs[k0 + 1:]      # None is a legitimate input value
+    if params.get("payload") is not None and n_in:
+        k0, pi = params["payload"]
+        inputs = inputs[:k0 % n_in] + (PAYLOADS[pi],) + inputs[k0 % n_in + 1:]   # any Python value may travel on a wire
     out = []
     want = conv(machine(d, inputs), n_out)
     try:
@@ -81,7 +89,7 @@ def check_diagram(params):
         out.append((_sig("raises", params), "%s(%s) raised %r, expected %r" % (d, inputs, e, want)))
         return out
     if got != want or type(got) is not type(want):
-        out.append((_sig("value", params), "%s(%s) = %r, expected %r" % (d, ", ".join(inputs), got, want)))
+        out.append((_sig("value", params), "%s(%s) = %r, expected %r" % (d, ", ".join(map(str, inputs)), got, want)))
     if ref.scan(d):
         out.append((_sig("illtyped", params), "%s ill-typed: %s" % (d, ref.scan(d)[:2])))
     return out
@@ -91,17 +99,22 @@ def check_structural(params):
     from discopy.cartesian import Swap, Copy, Discard
     kind, l, r = params["kind"], params["l"], params.get("r", 0)
     out = []
+    def load(inputs):
+        if params.get("payload") is not None and inputs:
+            k0 = params["payload"][0] % len(inputs)
+            return inputs[:k0] + (PAYLOADS[params["payload"][1]],) + inputs[k0 + 1:]
+        return inputs
     if kind == "swap":
         d = Swap(l, r)
-        inputs = tuple("a%d" % k for k in range(l)) + tuple("b%d" % k for k in range(r))
+        inputs = load(tuple("a%d" % k for k in range(l)) + tuple("b%d" % k for k in range(r)))
         want = inputs[l:] + inputs[:l]
     elif kind == "copy":
         d = Copy(l)
-        inputs = tuple("a%d" % k for k in range(l))
+        inputs = load(tuple("a%d" % k for k in range(l)))
         want = inputs + inputs
     else:
         d = Discard(l)
-        inputs = tuple("a%d" % k for k in range(l))
+        inputs = load(tuple("a%d" % k for k in range(l)))
         want = ()
     errs = ref.scan(d)
     if errs:
@@ -169,6 +182,55 @@ def check_history(params):
     return out
 
 
+def check_function(params):
+    """The Function values themselves (what a diagram evaluates to): binary and n-ary tensor and
+    composition of Python functions of every small arity, called on symbolic inputs."""
+    from discopy.cartesian import Function
+    shapes = [tuple(x) for x in params["shapes"]]
+    fs = [Function(i, j, build.symbolic_function("f%d_" % t, j)) for t, (i, j) in enumerate(shapes)]
+    out = []
+
+    def apply(t, args):
+        i, j = shapes[t]
+        return tuple("f%d_%d(%s)" % (t, k, ",".join(map(str, args))) for k in range(j))
+    n_in = sum(i for i, _ in shapes)
+    inputs = tuple("i%d" % k for k in range(n_in))
+    want, pos = (), 0
+    for t, (i, j) in enumerate(shapes):
+        want += apply(t, inputs[pos:pos + i])
+        pos += i
+    forms = {"f0.tensor(f1, ...)": lambda: fs[0].tensor(*fs[1:]),
+             "Function.id(0).tensor(f0, f1, ...)": lambda: Function.id(0).tensor(*fs),
+             "f0 @ f1 @ ...": lambda: __import__("functools").reduce(lambda a, b: a @ b, fs)}
+    for label, thunk in forms.items():
+        try:
+            got = thunk()(*inputs)
+        except Exception as e:  # noqa
+            out.append((_sig("function-raises", [params, label]), "%s with arities %s raised %r" % (label, shapes, e)))
+            continue
+        if got != conv(want, len(want)):
+            out.append((_sig("function-tensor", [params, label]), "%s with arities %s on %s = %r, expected %r"
+                        % (label, shapes, inputs, got, conv(want, len(want)))))
+    # sequential composition where the arities chain
+    if all(shapes[t][1] == shapes[t + 1][0] for t in range(len(shapes) - 1)):
+        ins = tuple("i%d" % k for k in range(shapes[0][0]))
+        cur = ins
+        for t in range(len(shapes)):
+            cur = apply(t, cur)
+        for label, thunk in {"f0.then(f1, ...)": lambda: fs[0].then(*fs[1:]),
+                             "f0 >> f1 >> ...": lambda: __import__("functools").reduce(lambda a, b: a >> b, fs)}.items():
+            try:
+                got = thunk()(*ins)
+            except Exception as e:  # noqa
+                out.append((_sig("function-raises", [params, label]), "%s with arities %s raised %r" % (label, shapes, e)))
+                continue
+            if got != conv(cur, len(cur)):
+                out.append((_sig("function-then", [params, label]), "%s with arities %s = %r, expected %r"
+                            % (label, shapes, got, conv(cur, len(cur)))))
+        params["_chain"] = True
+    return out
+
+
 def norm(r):
     def t(x):
         return tuple(t(y) for y in x) if isinstance(x, (list, tuple)) else x
@@ -177,7 +239,7 @@ def norm(r):
 
 CASES = {k: safe("C19", f) for k, f in {"diagram": check_diagram, "structural": check_structural,
                                         "naturality": check_naturality,
-                                        "history": check_history}.items()}
+                                        "history": check_history, "function": check_function}.items()}
 
 
 def _worker(shard):
@@ -212,12 +274,27 @@ def run(ctx):
                        "tuple-or-single-value convention cannot tell a tuple value from two wires)"]
     items = [("diagram", dict(recipe=r)) for r in uni]
     items += [("diagram", dict(recipe=r, none_input=i)) for i, r in enumerate(uni) if r[1] and len(r[2]) <= 2]
+    for i, r in enumerate(uni):
+        if r[1] and len(r[2]) <= 2:
+            for pi in range(len(PAYLOADS)):
+                items.append(("diagram", dict(recipe=r, payload=[i, pi])))
+    for n in (2, 3):
+        for shapes in itertools.product(SHAPES, repeat=n):
+            if sum(i for i, _ in shapes) <= 4 and sum(j for _, j in shapes) <= 4:
+                items.append(("function", dict(shapes=[list(x) for x in shapes])))
     m = 4 if ctx.quick else 6
     for l in range(m + 1):
         for r in range(m + 1):
             items.append(("structural", dict(kind="swap", l=l, r=r)))
         items.append(("structural", dict(kind="copy", l=l)))
         items.append(("structural", dict(kind="discard", l=l)))
+        if 1 <= l <= 3:
+            for pi in range(len(PAYLOADS)):
+                for k0 in range(l):
+                    items.append(("structural", dict(kind="copy", l=l, payload=[k0, pi])))
+                    items.append(("structural", dict(kind="discard", l=l, payload=[k0, pi])))
+                    for r in range(0, 3):
+                        items.append(("structural", dict(kind="swap", l=l, r=r, payload=[k0, pi])))
     for f in S:
         for g in S:
             items.append(("naturality", dict(f=list(f), g=list(g))))
